@@ -53,6 +53,7 @@ type Step struct {
 	Ev    []EventJ        `json:"ev"`
 	Rep   int             `json:"rep"` // replica number (C14), 1-based
 	Len   int             `json:"len"` // lines per replica
+	Judge bool            `json:"judge"` // false: the monitor only threads its ghost state through this step
 }
 
 type EventJ struct {
@@ -188,7 +189,7 @@ func (e *Env) deliverLocal(ctx sdk.Context, msg sdk.Msg) error {
 
 // Exec executes one input on the behaviour's committed context and returns the trace line.
 func (e *Env) Exec(a Action, raw map[string]any) (st Step) {
-	st = Step{Act: raw, Xfers: []Xfer{}, Hooks: []HookCall{}, Extra: Extra{ValidateOk: true}, Ev: []EventJ{}, Rep: 1}
+	st = Step{Act: raw, Xfers: []Xfer{}, Hooks: []HookCall{}, Extra: Extra{ValidateOk: true}, Ev: []EventJ{}, Rep: 1, Judge: true}
 	em := sdk.NewEventManager()
 	ctx := e.Ctx.WithEventManager(em)
 	e.HookLog = nil
